@@ -67,6 +67,20 @@ Proof.
     rewrite andb_false_r. reflexivity.
 Qed.
 
+(* ---------------------------------------------------------------- [dead_code] enabled *)
+
+Lemma dead_code_enabled_full : forall file,
+  spec_ok key_dead_code_enabled file (key_model key_dead_code_enabled file) = true.
+Proof. intros file. apply key_pointer_full; reflexivity. Qed.
+
+Lemma dead_code_runs_full : forall select skip file, dead_code_runs select skip file = dead_code_runs_spec select skip file.
+Proof. reflexivity. Qed.
+
+(* an analysis named with --select runs whatever the file says; --skip-deadcode wins over enabled = true *)
+Lemma dead_code_runs_flags_win : forall file,
+  dead_code_runs (Some true) false file = true /\ dead_code_runs (Some false) false file = false /\ dead_code_runs None true file = false.
+Proof. intros file. repeat split. Qed.
+
 (* ---------------------------------------------------------------- [dead_code] detect_* *)
 
 Lemma reported_spec : forall d fs, reported d fs = filter (switch_of d) fs.
